@@ -397,7 +397,7 @@ func (p *Prog) checkReadImpl(g *ssa.Function) bool {
 	e := p.Fn(g)
 	for _, b := range g.Blocks {
 		ret, ok := b.Instrs[len(b.Instrs)-1].(*ssa.Return)
-		if !ok || len(ret.Results) == 0 {
+		if !ok || b == g.Recover || len(ret.Results) == 0 {
 			continue
 		}
 		if !e.Prove(ret, e.Len(buf).Sub(e.Eval(ret.Results[0]))) {
